@@ -105,6 +105,19 @@ func (f LeveldbDiskStorage) SetTableMeta(tbl *btapb.Table) {
 	}
 }
 
+// Delete removes all persistent state of a table: first its metadata (after which
+// the table no longer exists for a restarted server), then its row data.
+func (f LeveldbDiskStorage) Delete(tbl *btapb.Table) {
+	path := filepath.Join(f.Root, tbl.Name)
+	if err := os.Remove(path + ".table.proto"); err != nil && !os.IsNotExist(err) {
+		f.errLog(err, "os.Remove %q", path+".table.proto")
+		return
+	}
+	if err := os.RemoveAll(path); err != nil {
+		f.errLog(err, "os.RemoveAll %q", path)
+	}
+}
+
 func (f LeveldbDiskStorage) errLog(err error, format string, args ...interface{}) {
 	if f.ErrLog != nil {
 		f.ErrLog(err, fmt.Sprintf(format, args...))
